@@ -11,7 +11,8 @@
 (*                                         written after the run)                                     *)
 (*          [e |-> "end", w]                                                                          *)
 (*          [e |-> "final", post]         the state read back after all workers have finished          *)
-(* A reply "Busy" (SQLite: database is locked) means the call had no effect.                          *)
+(* A reply "Busy" (SQLite: database is locked) means the call had no effect.  A reply "Crashed" marks  *)
+(* a call whose worker died inside it (no end event): it is wholly applied or wholly absent (C05).     *)
 EXTENDS JournalReplay, TraceBase
 
 VARIABLES st, pend, lin
@@ -55,6 +56,10 @@ Lin(w) ==
   /\ pend[w] # Idle /\ ~lin[w]
   /\ LET op == pend[w].op  ret == pend[w].ret IN
        IF ret.k = "err" /\ ret.v = "Busy" THEN UNCHANGED st
+       ELSE IF ret.k = "err" /\ ret.v = "Crashed"                   \* the worker died inside the call (C05):
+         THEN \/ UNCHANGED st                                        \*   wholly absent
+              \/ IsGetter(op) /\ UNCHANGED st
+              \/ ~IsGetter(op) /\ OpDefined(st, op) /\ st' = ApplyOp(st, op).st   \* or wholly applied
        ELSE IF IsGetter(op) THEN GetterOK(st, op, ret) /\ UNCHANGED st
        ELSE /\ OpDefined(st, op)
             /\ LET r == ApplyOp(st, op) IN RetEq(ret, r.ret) /\ st' = r.st
@@ -64,7 +69,9 @@ Lin(w) ==
 End == /\ Is("end") /\ pend[Ev.w] # Idle /\ lin[Ev.w]
        /\ pend' = [pend EXCEPT ![Ev.w] = Idle] /\ UNCHANGED <<st, lin>>
 
-Final == /\ Is("final") /\ \A w \in Workers : pend[w] = Idle
+Final == /\ Is("final")
+         /\ \A w \in Workers : IF pend[w] = Idle THEN TRUE
+                                ELSE pend[w].ret.k = "err" /\ pend[w].ret.v = "Crashed" /\ lin[w]
          /\ Ev.post = Project(st)                                   \* nothing lost, nothing half-done
          /\ UNCHANGED <<st, pend, lin>>
 
